@@ -53,8 +53,8 @@ class Engine:
         realenv.take_control()
         self.tabs = extract.tables()
         self.by = {t['name']: t for t in self.tabs}
-        self.supported = [t for t in self.tabs if py_supported(t)]
-        self.supported_m = [t for t in self.tabs if py_supported_m(t)]
+        self.supported_m = [t for t in self.tabs if py_supported_m(t) and not t['repeat_bursts']]
+        self.supported = [t for t in self.tabs if py_supported(t)] + self.supported_m
         self.ops = []
         self.reals = []
         self.kinds = collections.Counter()
@@ -287,25 +287,6 @@ def standard_correspondence(ctx, r, per_proto=2, focus=()):
                 E.set_tol(iid, inst, r.choice([5, 10, 20]))
             for f in frames[:3] + [fr, garbage(r), fr]:
                 E.idecode(iid, inst, f)
-    # the Manchester path of CodeWrapper (tables without middle timings): parse only
-    for t in E.supported_m:
-        d = E.dec(t['name'])
-        n = per_proto * (5 if t['name'] in focus else 1)
-        for k in range(n):
-            p = E.protos.sample_params(d, r)
-            try:
-                code = E.protos.encode(d, p, repeat_count=0)
-            except Exception:
-                continue
-            frames = E.protos.frames(code)
-            if not frames:
-                continue
-            for fr in frames[:2]:
-                for tn in ((20, 5) if k == 0 else (r.choice([20, 10, 5]),)):
-                    E.parse_op(t, tn, 1, fr)
-                    for f in perturbations(r, fr, t, tn):
-                        E.parse_op(t, tn, 1, f)
-            E.parse_op(t, 20, 1, garbage(r))
     E.finish(ctx)
     ctx.sample({'correspondence_op': E.ops[200][:200], 'real_and_model': E.reals[200][:200]})
     return E
